@@ -12,7 +12,8 @@ C05 / C10 line-protocol driver for the time model:
 
 Tokens: rationals `p/q` or integers; clocks `sys`, `app`, `t<i>`;
 acts `y d`, `hang`, `yinf` (= hang), `log`, `send b`, `spawn r clk`, `tempo i x`, `pause r`, `resume r`, `stop r`,
-`wait c`, `sig c`, `seed n`, `draw`, `pull r`.
+`wait c`, `sig c`, `seed n`, `draw`, `pull r`, `raise`, `etempo i x`.  Draw events print the SEED of the
+generator object read (`M` = the main thread's) and the index in its stream.
 -/
 import Sc3Verif.C05.Model
 open Sc3Verif.C05
@@ -22,11 +23,15 @@ def fmtRat (q : Rat) : String := if q.den == 1 then toString q.num else s!"{q.nu
 def fmtClk : Clk → String
   | .sys => "sys" | .app => "app" | .tempo i => s!"t{i}"
 
-def fmtEv (start : Rat) : Ev → String
+def fmtEv (start : Rat) (genSeed : Nat → Option Nat) : Ev → String
   | .resume r pc c b s => s!"R:{r}:{pc}:{fmtClk c}:{fmtRat b}:{fmtRat (s - start)}"
   | .log r b s => s!"L:{r}:{fmtRat b}:{fmtRat (s - start)}"
   | .send r b s => s!"B:{r}:{b}:{fmtRat (s - start)}"
-  | .draw r g i => s!"D:{r}:{g}:{i}"
+  | .draw r g i =>
+    let name := match genSeed g with
+      | none => "M"
+      | some n => toString n
+    s!"D:{r}:{name}:{i}"
   | .refused r t => s!"X:{r}:{t}"
 
 def parseRat (s : String) : Option Rat :=
@@ -61,6 +66,8 @@ def parseAct (ws : List String) : Option Act :=
   | ["seed", n] => do some (.seed (← n.toNat?))
   | ["draw"] => some .draw
   | ["pull", r] => do some (.pull (← r.toNat?))
+  | ["raise"] => some .raise
+  | ["etempo", i, x] => do some (.setTempo (← i.toNat?) (← parseRat x))  -- same map as `tempo=` at logical = elapsed time
   | _ => none
 
 def splitActs (ws : List String) : List (List String) :=
@@ -123,7 +130,7 @@ partial def loop (h out : IO.FS.Stream) (d : DS) : IO Unit := do
     | some c => let r := (RtS.mk d.s d.now).step (.run c); loop h out { d with s := r.s, now := r.now }
     | none => out.putStrLn "bad-move"; loop h out d
   | ["dump"] =>
-    let evs := " ".intercalate (d.s.trace.reverse.map (fmtEv d.start))
+    let evs := " ".intercalate (d.s.trace.reverse.map (fmtEv d.start d.s.genSeed))
     out.putStrLn s!"{evs} | end={fmtRat (d.s.mainSecs - d.start)} pend={d.s.pend.length}"
     loop h out d
   | _ => out.putStrLn "bad-line"; loop h out d
